@@ -96,6 +96,8 @@ pub trait Tbl:
     fn t_iter_from(start: &Self) -> Box<dyn Iterator<Item = Self>>;
     /// an `Iterator`-method script (see iterprobe.rs) on the concrete iterator type, fresh or positioned
     fn t_iter_script(n: usize, start: Option<&Self>, script: &[(u64, u64)]) -> Vec<crate::iterprobe::Obs>;
+    /// plain `next()` calls only: does the (fresh or positioned) iterator end within `limit` items?
+    fn t_iter_ends_within(n: usize, start: Option<&Self>, limit: u128) -> bool;
     fn t_from_cofactors(c0: &Self, c1: &Self, i: usize) -> Self;
     fn t_bdd_complexity(l: &[Self]) -> usize;
 
@@ -414,6 +416,12 @@ impl Tbl for Lut {
             Some(s) => crate::iterprobe::run_script(Lut::verif_iter_from(s), script),
         }
     }
+    fn t_iter_ends_within(n: usize, start: Option<&Self>, limit: u128) -> bool {
+        match start {
+            None => crate::iterprobe::ends_within(Lut::all_functions(n), limit),
+            Some(s) => crate::iterprobe::ends_within(Lut::verif_iter_from(s), limit),
+        }
+    }
     fn t_p_canon(&self) -> (Self, Vec<u8>) {
         self.p_canonization()
     }
@@ -491,6 +499,13 @@ impl<const N: usize, const T: usize> Tbl for StaticLut<N, T> {
         match start {
             None => crate::iterprobe::run_script(Self::all_functions(), script),
             Some(s) => crate::iterprobe::run_script(Self::verif_iter_from(s), script),
+        }
+    }
+    fn t_iter_ends_within(n: usize, start: Option<&Self>, limit: u128) -> bool {
+        assert_eq!(n, N, "harness: size dispatch");
+        match start {
+            None => crate::iterprobe::ends_within(Self::all_functions(), limit),
+            Some(s) => crate::iterprobe::ends_within(Self::verif_iter_from(s), limit),
         }
     }
     fn t_p_canon(&self) -> (Self, Vec<u8>) {
